@@ -190,11 +190,13 @@ def _has_octal(text):
 def expr_worker(cases, wid, extra):
     """cases: list of {min, full, value, names}"""
     import prophyc.calc as calc
-    res = {"fails": [], "n": 0, "samples": [], "nontrivial": 0, "n_cpp": 0}
+    res = {"fails": [], "n": 0, "samples": [], "nontrivial": 0, "n_cpp": 0, "n_cpp_ill_formed": {}}
     work = tempfile.mkdtemp(prefix="vfexpr-", dir=extra.get("scratch"))
     names = cases[0]["names"] if cases else []
     kvars = {"K%d" % (i + 1): v for i, v in enumerate(names)}
     pre = "".join("const K%d = %d;\n" % (i + 1, v) for i, v in enumerate(names))
+
+    cpp_on = [bool(extra.get("cpp"))]
 
     def fail(c, ctx, what):
         res["fails"].append({"check": "expr", "what": what, "context": ctx, "min": c["min"], "full": c["full"],
@@ -210,6 +212,144 @@ def expr_worker(cases, wid, extra):
             out.append("struct S%s%d { u8 a[%s]; };" % (tag, i, text))
         return out
 
+    def c_value(txt):
+        """the text as a C++11 compiler reads it: C operator precedence (the
+        same as Python's for these operators), `--` is a decrement, every
+        operand is an int and every intermediate result must fit one, shift
+        counts 0..31 on non-negative values, division truncates.  None when it
+        is not an integer constant expression there."""
+        import ast
+        if "--" in txt:
+            return None
+
+        def ev(n):
+            if isinstance(n, ast.Constant) and isinstance(n.value, int):
+                v = n.value
+            elif isinstance(n, ast.Name):
+                v = kvars[n.id]
+            elif isinstance(n, ast.UnaryOp) and isinstance(n.op, ast.USub):
+                v = -ev(n.operand)
+            elif isinstance(n, ast.BinOp):
+                a, b = ev(n.left), ev(n.right)
+                if isinstance(n.op, ast.Add):
+                    v = a + b
+                elif isinstance(n.op, ast.Sub):
+                    v = a - b
+                elif isinstance(n.op, ast.Mult):
+                    v = a * b
+                elif isinstance(n.op, ast.FloorDiv):
+                    if b == 0:
+                        raise ValueError
+                    v = abs(a) // abs(b) * (1 if (a < 0) == (b < 0) else -1)
+                elif isinstance(n.op, ast.LShift):
+                    if not 0 <= b < 32 or a < 0:
+                        raise ValueError
+                    v = a << b
+                elif isinstance(n.op, ast.RShift):
+                    if not 0 <= b < 32:
+                        raise ValueError
+                    v = a >> b
+                else:
+                    raise ValueError
+            else:
+                raise ValueError
+            if not -2 ** 31 <= v < 2 ** 31:
+                raise ValueError
+            return v
+        try:
+            # C octal/hex literals: Python reads 0x the same; octal texts never get here
+            return ev(ast.parse(txt.replace("/", "//"), mode="eval").body)
+        except (ValueError, SyntaxError, KeyError):
+            return None
+
+    def cpp_program(used, with_union):
+        lines = ['#include <cstdio>', '#include "e.pp.hpp"', '#include "e.ppf.hpp"',
+                 '#define P(tag, expr) std::printf("%s %lld\\n", tag, (long long)(expr));', 'int main()', '{']
+        for i, tag, txt, c in used:
+            n, v = "%s%d" % (tag, i), c["value"]
+            lines.append('P("R.const.%s", %s) P("F.const.%s", prophy::generated::%s)' % (n, n, n, n))
+            if 0 <= v < (2 ** 32 if with_union else 2 ** 31):
+                lines.append('P("R.enumerator.%s", E%s_a) P("F.enumerator.%s", prophy::generated::E%s_a)' % (n, n, n, n))
+                if with_union:
+                    lines.append('P("R.discriminator.%s", U%s::discriminator_a) '
+                                 'P("F.discriminator.%s", prophy::generated::U%s::discriminator_a)' % (n, n, n, n))
+            if 1 <= v <= 64 and not c.get("_nostruct"):
+                lines.append('P("R.extent.%s", sizeof(((S%s*)0)->a)) P("F.extent.%s", sizeof(((prophy::generated::S%s*)0)->a)) '
+                             'P("F.bytesize.%s", prophy::generated::S%s::encoded_byte_size)' % (n, n, n, n, n, n))
+        lines += ['return 0;', '}']
+        return "\n".join(lines) + "\n"
+
+    def build_and_run(sub, used, with_union):
+        from . import cppleg as C
+        with open(os.path.join(sub, "prog.cpp"), "w") as f:
+            f.write(cpp_program(used, with_union))
+        rc, out = C.run_cmd(["g++", "-std=c++11", "-O0", "-w", "-I", C.INCLUDE, "-I", sub, os.path.join(sub, "prog.cpp"),
+                             "-o", os.path.join(sub, "prog")], sub, timeout=600)
+        if rc != 0:
+            return None, out
+        rc, out = C.run_cmd([os.path.join(sub, "prog")], sub, timeout=60)
+        if rc != 0:
+            return None, out
+        vals = {}
+        for line in out.splitlines():
+            k, _, v = line.partition(" ")
+            vals[k] = int(v)
+        return vals, ""
+
+    def check_cpp(sub, used, fe, with_union):
+        """values the C++ back-ends give to constants, enumerators,
+        discriminators and array extents (raw and full codec headers)"""
+        res["n_cpp"] += len(used)
+        vals, err = build_and_run(sub, used, with_union)
+        if vals is None:
+            fail(used[0][3], "%s -> c++" % fe, "generated C++ headers do not compile or run: %s" % "; ".join([ln for ln in err.splitlines() if "error" in ln][:3] or [err[-300:]])[:900])
+            return
+        for i, tag, txt, c in used:
+            n = "%s%d" % (tag, i)
+            for key in ("R.const.", "F.const.", "R.enumerator.", "F.enumerator.", "R.discriminator.", "F.discriminator.",
+                        "R.extent.", "F.extent.", "F.bytesize."):
+                got = vals.get(key + n)
+                if got is not None and got != c["value"]:
+                    kind = key.split(".")[1]
+                    res["fails"].append({"check": "expr", "what": "C++ %s codec: %s is %d, the expression denotes %d"
+                                         % ("raw" if key[0] == "R" else "full", kind, got, c["value"]),
+                                         "context": "%s -> c++ %s (%s)" % (fe, kind, txt), "min": c["min"], "full": c["full"],
+                                         "value": c["value"], "text": txt, "c_value": c_value(txt), "observed": got})
+
+    def top_level_rshift(txt):
+        depth = 0
+        for k, ch in enumerate(txt):
+            depth += (ch == "(") - (ch == ")")
+            if depth == 0 and txt[k:k + 2] == ">>":
+                return True
+        return False
+
+    def probe_ill_formed(u, kind):
+        """raw isar text that a C++ compiler cannot read as the generators
+        emit it: compile it alone and record what happens"""
+        i, tag, txt, c = u
+        sub2 = tempfile.mkdtemp(prefix="x", dir=work)
+        p2 = os.path.join(sub2, "e.xml")
+        body = '<constant name="%s%d" value="%s"/>' % (tag, i, CL.xml_escape(txt)) if kind == "const" else \
+            '<struct name="S%s%d"><member name="a" type="u8"><dimension size="%s"/></member></struct>' % (tag, i, CL.xml_escape(txt))
+        with open(p2, "w") as f:
+            f.write('<x>\n%s\n%s\n</x>\n' % ("\n".join('<constant name="K%d" value="%d"/>' % (q + 1, v)
+                                                          for q, v in enumerate(names)), body))
+        st2, _, _ = CL.run_main([p2, "--isar", "--cpp_out", sub2, "--cpp_full_out", sub2])
+        if st2 == "ok":
+            from . import cppleg as C
+            with open(os.path.join(sub2, "prog.cpp"), "w") as f:
+                f.write('#include "e.pp.hpp"\n#include "e.ppf.hpp"\nint main() { return 0; }\n')
+            rc, out = C.run_cmd(["g++", "-std=c++11", "-O0", "-w", "-fsyntax-only", "-I", C.INCLUDE, "-I", sub2,
+                                 os.path.join(sub2, "prog.cpp")], sub2, timeout=300)
+            if rc != 0:
+                line = next((ln for ln in out.splitlines() if "error" in ln), out.strip()[:200])
+                res["fails"].append({"check": "expr", "what": "the generated C++ headers are ill-formed for this "
+                                     "expression used as %s: %s" % (kind, line[:300]),
+                                     "context": "isar -> c++ %s (%s)" % (kind, txt), "min": c["min"], "full": c["full"],
+                                     "value": c["value"], "text": txt, "c_value": None, "observed": None})
+        shutil.rmtree(sub2, ignore_errors=True)
+
     def check_prophy(chunk, base_i):
         text = pre
         for off, c in enumerate(chunk):
@@ -219,7 +359,7 @@ def expr_worker(cases, wid, extra):
         path = os.path.join(sub, "e.prophy")
         with open(path, "w") as f:
             f.write(text)
-        status, nodes, _ = CL.run_main([path, "--python_out", sub])
+        status, nodes, _ = CL.run_main([path, "--python_out", sub] + (["--cpp_out", sub, "--cpp_full_out", sub] if cpp_on[0] else []))
         if status != "ok":
             return status, nodes
         try:
@@ -227,6 +367,9 @@ def expr_worker(cases, wid, extra):
         except P.CompileFailure as e:
             return "import", str(e)
         by = {n.name: n for n in nodes["e"]}
+        if cpp_on[0]:
+            used = [(base_i + off, tag, txt, c) for off, c in enumerate(chunk) for tag, txt in (("M", c["min"]), ("F", c["full"]))]
+            check_cpp(sub, used, "prophy", True)
         for off, c in enumerate(chunk):
             i, v = base_i + off, c["value"]
             for tag, txt in (("M", c["min"]), ("F", c["full"])):
@@ -254,23 +397,57 @@ def expr_worker(cases, wid, extra):
         shutil.rmtree(sub, ignore_errors=True)
         return "ok", None
 
-    def check_isar(chunk, base_i):
+    def isar_xml(items, for_cpp):
         elems = ['<constant name="K%d" value="%d"/>' % (i + 1, v) for i, v in enumerate(names)]
+        for i, tag, txt, c in items:
+            elems.append('<constant name="%s%d" value="%s"/>' % (tag, i, CL.xml_escape(txt)))
+            if 1 <= c["value"] <= 64 and not c.get("_nostruct"):
+                elems.append('<struct name="S%s%d"><member name="a" type="u8"><dimension size="%s"/></member></struct>'
+                             % (tag, i, CL.xml_escape(txt)))
+            if 0 <= c["value"] < 2 ** 31:
+                elems.append('<enum name="E%s%d"><enum-member name="E%s%d_a" value="%s"/></enum>'
+                             % (tag, i, tag, i, CL.xml_escape(txt)))
+        return "<x>\n%s\n</x>\n" % "\n".join(elems)
+
+    def check_isar(chunk, base_i):
         used = []
         for off, c in enumerate(chunk):
             i = base_i + off
             for tag, txt in (("M", c["min"]), ("F", c["full"])):
-                if _has_octal(txt):
-                    continue
-                used.append((i, tag, txt, c))
-                elems.append('<constant name="%s%d" value="%s"/>' % (tag, i, CL.xml_escape(txt)))
-                if 1 <= c["value"] <= 64:
-                    elems.append('<struct name="S%s%d"><member name="a" type="u8"><dimension size="%s"/></member></struct>'
-                                 % (tag, i, CL.xml_escape(txt)))
+                if not _has_octal(txt):
+                    used.append((i, tag, txt, c))
         sub = tempfile.mkdtemp(prefix="i", dir=work)
+        if cpp_on[0]:
+            # the C++ back-ends get the texts a C++ compiler can read at all;
+            # the others are probed one by one (bounded)
+            used_cpp, ill_formed, ill_struct = [], [], []
+            for i, tag, txt, c in used:
+                cv = c_value(txt)
+                if cv is None:
+                    ill_formed.append((i, tag, txt, c))
+                    continue
+                if 1 <= c["value"] <= 64 and (cv < 1 or top_level_rshift(txt)):
+                    # as an array extent the raw text is ill-formed C++ (non-positive
+                    # under C precedence, or `>>` closing array<T, N>)
+                    ill_struct.append((i, tag, txt, c))
+                    c = dict(c, _nostruct=True)
+                used_cpp.append((i, tag, txt, c))
+            subc = os.path.join(sub, "cpp")
+            os.makedirs(subc)
+            with open(os.path.join(subc, "e.xml"), "w") as f:
+                f.write(isar_xml(used_cpp, True))
+            st, info, _ = CL.run_main([os.path.join(subc, "e.xml"), "--isar", "--cpp_out", subc, "--cpp_full_out", subc])
+            if st != "ok":
+                fail(used_cpp[0][3], "isar -> c++", "prophyc --isar with the C++ back-ends failed (%s): %s" % (st, str(info)[:300]))
+            else:
+                check_cpp(subc, used_cpp, "isar", False)
+            for kind, lst in (("const", ill_formed), ("extent", ill_struct)):
+                for u in lst[:max(0, 2 - res["n_cpp_ill_formed"].get(kind, 0))]:
+                    res["n_cpp_ill_formed"][kind] = res["n_cpp_ill_formed"].get(kind, 0) + 1
+                    probe_ill_formed(u, kind)
         path = os.path.join(sub, "e.xml")
         with open(path, "w") as f:
-            f.write("<x>\n%s\n</x>\n" % "\n".join(elems))
+            f.write(isar_xml(used, False))
         status, nodes, _ = CL.run_main([path, "--isar", "--python_out", sub])
         if status != "ok":
             return status, nodes
@@ -309,10 +486,14 @@ def expr_worker(cases, wid, extra):
                     if got != c["value"] or isinstance(got, float):
                         fail(c, "calc.eval(%s)" % txt, "model-time evaluator gives %r, the expression denotes %d" % (got, c["value"]))
             for fn, label in ((check_prophy, "prophy"), (check_isar, "isar")):
+                # C++ translation units are the expensive part: every batch in
+                # the thorough tier, every cpp_every-th batch otherwise
+                cpp_on[0] = bool(extra.get("cpp")) and (start // size + wid) % extra.get("cpp_every", 1) == 0
                 status, info = fn(chunk, start)
                 if status != "ok":
                     # isolate: one expression per compilation (bounded)
                     bad = 0
+                    cpp_on[0] = False      # isolation re-runs: the C++ part was done with the batch
                     for off, c in enumerate(chunk):
                         st, inf = fn([c], start + off)
                         if st != "ok":
@@ -335,15 +516,19 @@ def c14(tier, replay):
         "positive divisor; values kept below 10^8 (TLC integers)",
         "each expression is compiled as constant, enumerator, array extent and discriminator, as minimally and as fully "
         "parenthesised text, in prophy syntax and (decimal/hex only) as raw isar text",
-        "the C++ legs (enum values / array extents printed by a compiled TU) run in the thorough tier only"]
+        "C++ back-ends: one translation unit per batch includes the generated raw and full headers and prints every "
+        "constant, enumerator, discriminator and array extent (g++ -std=c++11); quick tier: every 5th batch of 150 "
+        "expressions, thorough: all"]
     cases, stats = expr_cases(tier)
     for st in stats:
         rep.add_tlc(st)
     jobs = _chunks(cases, NCPU)
     with ProcessPoolExecutor(max_workers=NCPU) as ex:
-        results = list(ex.map(expr_worker, jobs, range(len(jobs)), [{"scratch": scratch_dir("expr")}] * len(jobs)))
+        results = list(ex.map(expr_worker, jobs, range(len(jobs)),
+                               [{"scratch": scratch_dir("expr"), "cpp": True, "cpp_every": 5 if tier == "quick" else 1}] * len(jobs)))
     nt = 0
     for r in results:
+        rep.cov["cpp_values_checked"] = rep.cov.get("cpp_values_checked", 0) + r["n_cpp"]
         rep.count(r["n"])
         rep.validated(r["n"])
         nt += r["nontrivial"]
